@@ -1046,3 +1046,89 @@ def pol_is_variant(pol, idx, nvariants=2):
         rest = set(range(nvariants)) - set(pol[1])
         return rest == {idx}
     return False
+
+
+# ----------------------------------------------------------------------------------------
+# Path-sensitive enumeration over an acyclic region
+# ----------------------------------------------------------------------------------------
+
+def _atoms_for(e, t, tgt):
+    """Edge atom of switch terminator `t` towards `tgt` when its discriminant is expression `e`."""
+    isbool = t["dty"] == "bool"
+    vs = [v for v, x in t["v"] if x == tgt]
+    if tgt != t["else"]:
+        if isbool and len(vs) == 1:
+            return bool_atom(e, bool(vs[0]))
+        if len(vs) == 1:
+            return (e, ("eq", vs[0]))
+        return (e, ("in", tuple(sorted(vs))))
+    if isbool and len(t["v"]) == 1:
+        return bool_atom(e, not bool(t["v"][0][0]))
+    return (e, ("ne", tuple(v for v, _ in t["v"])))
+
+
+def enum_paths(fn, start, targets, limit=20000):
+    """Every acyclic feasible path from block `start` to a block in `targets`, as
+    (target, [(expr, polarity)]).  Unlike path_conditions this is path-sensitive for locals that
+    are assigned in several branches (`let c = a || b;` lowers to `c = true` in one arm and
+    `c = b` in the other): along each path the last assignment decides how a later switch on the
+    local is read - a literal prunes the infeasible edge, anything else becomes the atom."""
+    succ = fn.succ()
+    out = []
+    count = [0]
+
+    def walk(bb, env, atoms, seen):
+        count[0] += 1
+        if count[0] > limit:
+            raise AnchorMissing("path enumeration in %s exceeds %d steps" % (fn.short, limit))
+        if bb in targets:
+            out.append((bb, list(atoms)))
+            return
+        if bb in seen:
+            return
+        seen = seen | {bb}
+        b = fn.blocks[bb]
+        env = dict(env)
+        for st in b["s"]:
+            if st[0] != "=" or st[1][1]:
+                continue
+            l, rv = st[1][0], st[2]
+            if rv[0] == "use" and rv[1][0] == "k" and isinstance(rv[1][1].get("v"), bool):
+                env[l] = ("const", rv[1][1]["v"])
+            elif rv[0] == "use" and rv[1][0] in ("cp", "mv") and not rv[1][1][1] and rv[1][1][0] in env:
+                env[l] = env[rv[1][1][0]]
+            elif rv[0] == "un" and rv[1] == "Not" and rv[2][0] in ("cp", "mv") and not rv[2][1][1] and rv[2][1][0] in env:
+                v = env[rv[2][1][0]]
+                env[l] = ("const", not v[1]) if v[0] == "const" else ("expr", ("un", "Not", v[1]))
+            else:
+                env[l] = ("expr", rvalue_expr(fn, rv, 0, l))
+        t = b["t"]
+        if t["k"] == "switch":
+            d = t["d"]
+            val = None
+            if len(set(succ[bb])) == 1:          # already decided by Fn.succ (cfg!/debug_assert switch)
+                walk(succ[bb][0], env, atoms, seen)
+                return
+            if d[0] in ("cp", "mv") and not d[1][1] and d[1][0] in env:
+                val = env[d[1][0]]
+            if val is not None and val[0] == "const" and t["dty"] == "bool":
+                hit = [x for v, x in t["v"] if v == int(val[1])]
+                nxt = hit[0] if hit else t["else"]
+                if nxt in succ[bb]:
+                    walk(nxt, env, atoms, seen)
+                return
+            e = val[1] if val is not None else op_expr(fn, d)
+            for tgt in dict.fromkeys(succ[bb]):
+                walk(tgt, env, atoms + [_atoms_for(e, t, tgt)], seen)
+            return
+        if t["k"] in ("call", "tailcall") and t.get("dest") and not t["dest"][1]:
+            l = t["dest"][0]
+            env[l] = ("expr", ("call", callee_name(t["f"]), tuple(op_expr(fn, a) for a in t["a"]), l))
+        if t["k"] == "assert":
+            e, v = bool_atom(op_expr(fn, t["c"]), bool(t["exp"]))
+            atoms = atoms + [(e, v)]
+        for tgt in dict.fromkeys(succ[bb]):
+            walk(tgt, env, atoms, seen)
+
+    walk(start, {}, [], frozenset())
+    return out
